@@ -322,8 +322,11 @@ theorem irr_case (fuel : Nat) (ih : Irr fuel) :
   cases items with
   | nil => simp only [execCase]; exact ⟨h, trivial⟩
   | cons it rest =>
-    obtain ⟨m, body, k⟩ := it
+    obtain ⟨m, e, body, k⟩ := it
     simp only [execCase]
+    split
+    · rw [expansionError_cond s hc, expansionError_cond s' (cond_of_stack (sbe_stack h) hc)]
+      exact ⟨h, rfl⟩
     split
     · exact ih.case_ s s' rest false u h hc
     · have b1 := (bal fuel).list s body
